@@ -4,7 +4,7 @@
 with the patch, and the existing suites of the four offline crates still pass.  Writes seeded/confirm.json."""
 import glob, json, os, subprocess, sys
 WT = "/tmp/repo_conf"
-CRATE = {"C20": {"m1": "edp_elixir_terms", "m2": "edp_elixir_terms", "m3": "erltf"}, "C11": "erltf", "C12": "erltf", "C01": "erltf",
+CRATE = {"C20": {"m1": "edp_elixir_terms", "m2": "edp_elixir_terms", "m3": "erltf", "m4": "edp_elixir_terms", "m5": "edp_elixir_terms", "m6": "edp_elixir_terms"}, "C11": "erltf", "C12": "erltf", "C01": "erltf",
          "C02": "erltf", "C13": "erltf", "C04": "edp_client", "C05": "edp_client", "C09": "edp_client",
          "C16": {"m1": "edp_client", "m2": "edp_client", "m3": "edp_node"}, "C15": "erltf_serde", "C03": "erltf", "C08": "edp_client", "C10": "erltf"}
 env = dict(os.environ, CARGO_TARGET_DIR="/tmp/repo_conf_target", CARGO_NET_OFFLINE="true")
